@@ -141,6 +141,78 @@ func propC05(c *Ctx) {
 		c.Violation("R5.2", "latestDependency/statement", m.latestDep.Pos(), "no readable statement on shovel.task_updates")
 	}
 
+	c.Rule("R5.5", "every registered dependency must have a position: the dependency read counts the referenced integrations it found and reports no progress when one is missing", 2)
+	{
+		ld := m.latestDep
+		hasCount := false
+		var scanCells []ssa.Value
+		for i := range sites {
+			s := &sites[i]
+			if s.Fn == ld && s.Stmt != nil && strings.Contains(strings.ToLower(s.Text), "count(") {
+				hasCount = true
+			}
+		}
+		for _, ci := range callsIn(ld) {
+			if ci.Common().IsInvoke() && ci.Common().Method.Name() == "Scan" {
+				if vs, ok := varargValues(ci.Common().Args[0]); ok {
+					scanCells = append(scanCells, vs...)
+				}
+			}
+		}
+		c.Check("R5.5", "latestDependency/counts-found-dependencies", ld.Pos(), hasCount && len(scanCells) >= 3, "the query also returns how many referenced integrations have a position")
+		// found < number of registered dependencies → return position 0
+		okCmp := false
+		allInstrs(ld, func(in ssa.Instruction) {
+			b, ok := in.(*ssa.BinOp)
+			if !ok || (b.Op != token.LSS && b.Op != token.NEQ) {
+				return
+			}
+			u, ok := b.X.(*ssa.UnOp)
+			if !ok {
+				return
+			}
+			isCell := false
+			for _, cell := range scanCells {
+				if stripConv(cell) == u.X {
+					isCell = true
+				}
+			}
+			if !isCell {
+				return
+			}
+			// right-hand side derives from destConfig.Dependencies (len or a counting helper)
+			fromDeps := false
+			var walk func(v ssa.Value, d int)
+			walk = func(v ssa.Value, d int) {
+				if v == nil || d > 5 {
+					return
+				}
+				if _, ch := fieldChain(v); len(ch) > 0 && ch[len(ch)-1] == fDeps {
+					fromDeps = true
+				}
+				if call, ok := v.(*ssa.Call); ok {
+					for _, a := range call.Call.Args {
+						walk(a, d+1)
+					}
+				}
+			}
+			walk(b.Y, 0)
+			if !fromDeps {
+				return
+			}
+			t, _ := boolEdges(b)
+			for _, e := range t {
+				if ret, ok := terminator(e.To).(*ssa.Return); ok {
+					vals := returnValues(ret)
+					if k, ok := constInt(vals[0]); ok && k == 0 && isNilConst(vals[2]) {
+						okCmp = true
+					}
+				}
+			}
+		})
+		c.Check("R5.5", "latestDependency/missing-dependency→no-progress", ld.Pos(), okCmp, "fewer positions than registered dependencies returns position 0 (Converge then returns ErrNothingNew)")
+	}
+
 	// ---- R5.3 ---------------------------------------------------------
 	propC05Refs(c)
 
